@@ -118,6 +118,74 @@ def b_where(c):
     return (lambda y: np.where(cond, a, y)), b, {}
 
 
+# ----------------------------------------------------------------------------- smooth functions at special points
+def special_point(shape, st, k=0):
+    x = data(shape, 0.3, 2.7, k)
+    fl = x.ravel().copy()
+    if st == "zeros":
+        fl[:] = 0.0
+    elif st == "zero1":
+        fl[0] = 0.0
+    elif st == "zero2":
+        fl[:2] = 0.0
+    elif st == "big":
+        fl = onp.where(onp.arange(fl.size) % 2 == 0, 400.0, -400.0) + fl
+    return fl.reshape(shape)
+
+
+def b_special(c):
+    prim, st, s = c["prim"], c["st"], tuple(c["s"])
+    if prim in ("logaddexp", "logaddexp2") and st == "big":
+        x = special_point(s, "big")
+        other = data(s, 0.4, 1.9, 5)
+        fn = getattr(np, prim)
+        return ((lambda v: fn(v, other)) if c["argnum"] == 0 else (lambda v: fn(other, v))), x, {}
+    if prim == "power":
+        e = float(c["ia"]) if c["ib"] else int(c["ia"])
+        x = special_point(s, st)
+        if st == "zeros" and e == 0 and False:
+            pass
+        return ((lambda v: v ** e) if c["form"] == "op" else (lambda v: np.power(v, e))), x, {}
+    if c["s2"]:
+        a, b = tuple(c["s"]), tuple(c["s2"])
+        if prim in ("dot", "matmul", "inner", "outer", "kron", "tensordot"):
+            za = special_point(a, st)
+            zb = data(b, 0.4, 1.9, 5)
+            if prim == "matmul" and (len(a) == 0 or len(b) == 0):
+                raise Skip("matmul needs arrays")
+            fn = getattr(np, prim)
+            # the zero entries sit in the differentiated operand (argnum) or in the other one, alternating with the case id
+            if c["id"] % 2:
+                za, zb = data(a, 0.3, 2.7, 0), special_point(b, st, 5)
+            return ((lambda v: fn(v, zb)) if c["argnum"] == 0 else (lambda v: fn(za, v))), (za if c["argnum"] == 0 else zb), {}
+        # elementwise binary: operand w holds the zero
+        w = c["ia"]
+        if prim in ("divide", "true_divide", "mod"):
+            w = 0
+        ops = [data(a, 0.3, 2.7, 0), data(b, 0.4, 1.9, 5)]
+        ops[w] = special_point(a, "zero1", 3)
+        if prim in ("maximum", "minimum"):
+            ops[1 - w] = ops[1 - w] + 0.05          # no ties
+        fn = getattr(np, prim)
+        if c["argnum"] == 0:
+            return (lambda v: fn(v, ops[1])), ops[0], {}
+        return (lambda v: fn(ops[0], v)), ops[1], {}
+    if prim in ("prod", "sum", "mean", "var", "max", "min", "cumsum"):
+        x = special_point(s, st)
+        ax = axis_arg(c["ax"])
+        if prim in ("max", "min") and st != "zero1":
+            raise Skip("ties are the kink family's business")
+        if prim == "min" and st == "zero1":
+            pass            # the zero is the unique minimum
+        if prim == "cumsum":
+            return (lambda v: np.cumsum(v, axis=ax)), x, {}
+        return (lambda v: getattr(np, prim)(v, axis=ax)), x, {}
+    x = special_point(s, st)
+    if prim in ("arcsin",) and st == "big":
+        raise Skip("domain")
+    return (lambda v: getattr(np, prim)(v)), x, {}
+
+
 # ----------------------------------------------------------------------------- the extension API on arguments of different shapes
 def b_extend(c):
     from autograd.extend import primitive, defvjp, defjvp
@@ -718,4 +786,4 @@ def b_helper(c):
     return f, x, {}
 
 
-BUILDERS = {"extend": b_extend, "helper": b_helper, "argsweep": b_argsweep, "kink": b_kink, "linalg": b_linalg, "fft": b_fft, "index": b_index, "join": b_join, "contract": b_contract, "rearr": b_rearr, "binary": b_binary, "where": b_where, "reduce": b_reduce, "cum": b_cum, "unary": b_unary}
+BUILDERS = {"special": b_special, "extend": b_extend, "helper": b_helper, "argsweep": b_argsweep, "kink": b_kink, "linalg": b_linalg, "fft": b_fft, "index": b_index, "join": b_join, "contract": b_contract, "rearr": b_rearr, "binary": b_binary, "where": b_where, "reduce": b_reduce, "cum": b_cum, "unary": b_unary}
